@@ -268,6 +268,76 @@ def cli_sessions(inputs: list[bytes], work: str, rng: random.Random) -> list[dic
     return recs
 
 
+def cli_outcomes(work: str, res) -> None:
+    """The command line's control flow incl. its error paths, judged by Cli.tla on (exit status, stdout?, stderr?)."""
+    from multidecoder.multidecoder import Multidecoder
+
+    env = dict(os.environ, PYTHONPATH=SRC, PYTHONIOENCODING="utf-8")
+    good = os.path.join(work, "good.bin")
+    with open(good, "wb") as f:
+        f.write(b"get http://evil-site.net/a.exe now")
+    plain = os.path.join(work, "plain.bin")
+    with open(plain, "wb") as f:
+        f.write(b"zzzz qqqq")
+    empty = os.path.join(work, "empty.bin")
+    open(empty, "wb").close()
+    kwdir = os.path.join(work, "kwok")
+    os.makedirs(kwdir, exist_ok=True)
+    with open(os.path.join(kwdir, "w.list"), "wb") as f:
+        f.write(b"zzzz\n")
+    md = Multidecoder()
+    cases = []
+    for mode in ([], ["--json"], ["--replace"], ["-j"], ["-r"]):
+        for path, ok in ((good, True), (plain, True), (empty, True), (os.path.join(work, "missing.bin"), False), (work, False)):
+            cases.append((mode + [path], None, dict(fileGiven=True, fileOK=ok)))
+        cases.append((mode, b"stdin http://evil-site.net/b.exe", dict(fileGiven=False, fileOK=True)))
+        cases.append((mode + ["--keywords", good, plain], None, dict(fileGiven=True, fileOK=True, kwGiven=True, kwIsDir=False)))
+        cases.append((mode + ["-k", os.path.join(work, "nodir"), plain], None, dict(fileGiven=True, fileOK=True, kwGiven=True, kwIsDir=False)))
+        cases.append((mode + ["--keywords", kwdir, plain], None, dict(fileGiven=True, fileOK=True, kwGiven=True, kwIsDir=True)))
+    cases.append((["--json", "--replace", good], None, dict(fileGiven=True, fileOK=True)))
+    cases.append((["-j", "-r"], b"x", dict(fileGiven=False, fileOK=True)))
+    cases.append((["--frobnicate", good], None, dict(fileGiven=True, fileOK=True, badopt=True)))
+    cases.append((["--version"], None, dict(fileGiven=False, fileOK=True, version=True)))
+    cases.append((["-V", good], None, dict(fileGiven=True, fileOK=True, version=True)))
+
+    def run(case):
+        args, stdin, facts = case
+        pr = subprocess.run([PY, "-m", "multidecoder"] + args, input=stdin if stdin is not None else b"", capture_output=True, env=env, timeout=300)
+        return pr.returncode, pr.stdout, pr.stderr
+
+    with ThreadPoolExecutor(NCPU) as ex:
+        outs = list(ex.map(run, cases))
+    recs = []
+    for (args, stdin, facts), (rc, out, err) in zip(cases, outs):
+        data = stdin if stdin is not None else b""
+        for a in args:
+            if os.path.isfile(a) and a not in (args[args.index("--keywords") + 1] if "--keywords" in args else None,):
+                with open(a, "rb") as f:
+                    data = f.read()
+        kw_ok = facts.get("kwIsDir", False)
+        tree = (Multidecoder(__import__("multidecoder.registry", fromlist=["build_registry"]).build_registry(kwdir)) if kw_ok else md).scan(data)
+        rec = dict(json=("--json" in args or "-j" in args), replace=("--replace" in args or "-r" in args), badopt=False, version=False,
+                   fileGiven=False, fileOK=True, kwGiven=False, kwIsDir=False, treeEmpty=not tree.children, inputEmpty=not data,
+                   rc=rc, out=bool(out), err=bool(err.strip()), args=args)
+        rec.update(facts)
+        recs.append(rec)
+    path = os.path.join(work, "cli.ndjson")
+    with open(path, "w") as f:
+        for r_ in recs:
+            f.write(json.dumps(r_) + "\n")
+    r = tlc.run("Cli", "SPECIFICATION Spec\nCHECK_DEADLOCK FALSE\n", env={"TRACE_FILE": path}, timeout=600)
+    v = r.verdicts()
+    if not r.completed or len(v) != len(recs):
+        raise MachineryError(f"Cli: {len(v)}/{len(recs)} judged\n" + r.diagnosis())
+    res.add("trace_states", r.distinct)
+    res.coverage["cli_outcome_sessions"] = len(recs)
+    for t, cl in v.items():
+        if "REJECT" in cl:
+            rec = recs[t - 1]
+            res.violation(f"command line outcome not a behaviour of Cli.tla: args {rec['args']} -> rc={rec['rc']} stdout={'yes' if rec['out'] else 'no'} "
+                          f"stderr={'yes' if rec['err'] else 'no'}", {"clause": "cli.outcome"}, {"kind": "cli-outcome", "session": rec})
+
+
 def clause_map(prop: str) -> set[str]:
     if prop == "C19":
         return {"flatten", "unchanged"}
@@ -336,6 +406,7 @@ def run(prop: str, tier: str) -> int:
                 n += 1
                 nontrivial += 1
             res.coverage["cli_sessions"] = len(cli_in)
+            cli_outcomes(work, res)
     verdicts, r = validate(path, n, workers="auto")
     res.add("trace_states", r.distinct)
     mine = clause_map(prop)
